@@ -283,6 +283,45 @@ theorem readPrimList_spec {p : Prim} {path : Path} {n : Nat} {v : Val} {bs : Lis
         simp [stamp_cons, stamp]
     · simp at h
 
+theorem fieldWith_ok (d : Path → Option Int → St → R Val) (g : Path → Option Int → Val → Option (List Byte × List SEv))
+    (hdg : ∀ p sel v bs evs, g p sel v = some (bs, evs) → ∀ rest pos out scs, Room scs bs.length → Fresh scs pos →
+      d p sel ⟨bs ++ rest, pos, out, scs⟩ = .ok (v, post rest pos out evs scs bs.length))
+    (tname : String) : (kind : FKind) → ∀ (fpath : Path) (vals : List (String × Val))
+    (v : Val) (bs : List Byte) (evs : List SEv),
+    specFieldWith g tname kind fpath vals v = some (bs, evs) → ∀ (rest : List Byte) (pos : Nat) (out : List (Nat × Event)) (scs : List SC),
+    Room scs bs.length → Fresh scs pos →
+    decodeFieldWith d tname kind fpath vals ⟨bs ++ rest, pos, out, scs⟩ = .ok (v, post rest pos out evs scs bs.length)
+  | .plain, fpath, vals, v, bs, evs, h, rest, pos, out, scs, hroom, hfresh => by
+    simp only [specFieldWith] at h
+    simpa [decodeFieldWith] using hdg fpath none v bs evs h rest pos out scs hroom hfresh
+  | .selected sel, fpath, vals, v, bs, evs, h, rest, pos, out, scs, hroom, hfresh => by
+    simp only [specFieldWith] at h
+    split at h
+    · simp at h
+    · rename_i sv hsel
+      simpa [decodeFieldWith, hsel] using hdg fpath sv v bs evs h rest pos out scs hroom hfresh
+  | .counted, fpath, vals, v, bs, evs, h, rest, pos, out, scs, hroom, hfresh => by
+    simp only [specFieldWith] at h
+    split at h
+    · rename_i c es hcount hlist
+      obtain rfl := asList_inv hlist
+      split at h
+      · rename_i hc
+        cases hrep : specRepeat (fun p v => g p none v) fpath es 0 with
+        | none => simp [hrep] at h
+        | some rr =>
+          obtain ⟨bb, ee⟩ := rr
+          simp only [hrep, Option.map_some, Option.some.injEq, Prod.mk.injEq] at h
+          obtain ⟨rfl, rfl⟩ := h
+          have := repeat_ok (fun p s => d p none s) (fun p v => g p none v)
+            (fun p v bs evs h rest pos out scs hroom hfresh => hdg p none v bs evs h rest pos out scs hroom hfresh)
+            fpath es 0 bb ee hrep rest pos (out ++ [(pos, .marshal ⟨fpath, .listOf tname, none, ""⟩)]) scs hroom hfresh
+          subst hc
+          simp only [decodeFieldWith, hcount, emitM, emit, this, R.bind_ok, post]
+          simp [stamp_cons]
+      · simp at h
+    · simp at h
+
 /-! ## the walker -/
 
 mutual
@@ -492,42 +531,6 @@ theorem arm_ok : (arms : Arms) → ∀ (un want : String) (path : Path) (v : Val
         simpa [specArm, heq] using h
       simpa [decodeArm, heq] using arm_ok arms un want path v bs evs h' rest pos out scs hroom hfresh
 
-theorem field_ok : (kind : FKind) → (t : Ty) → ∀ (fpath : Path) (vals : List (String × Val))
-    (v : Val) (bs : List Byte) (evs : List SEv),
-    specField kind t fpath vals v = some (bs, evs) → ∀ (rest : List Byte) (pos : Nat) (out : List (Nat × Event)) (scs : List SC),
-    Room scs bs.length → Fresh scs pos →
-    decodeField true kind t fpath vals ⟨bs ++ rest, pos, out, scs⟩ = .ok (v, post rest pos out evs scs bs.length)
-  | .plain, t, fpath, vals, v, bs, evs, h, rest, pos, out, scs, hroom, hfresh => by
-    simp only [specField] at h
-    simpa [decodeField] using decode_ok t fpath none v bs evs h rest pos out scs hroom hfresh
-  | .selected sel, t, fpath, vals, v, bs, evs, h, rest, pos, out, scs, hroom, hfresh => by
-    simp only [specField] at h
-    split at h
-    · simp at h
-    · rename_i sv hsel
-      simpa [decodeField, hsel] using decode_ok t fpath sv v bs evs h rest pos out scs hroom hfresh
-  | .counted, t, fpath, vals, v, bs, evs, h, rest, pos, out, scs, hroom, hfresh => by
-    simp only [specField] at h
-    split at h
-    · rename_i c es hcount hlist
-      obtain rfl := asList_inv hlist
-      split at h
-      · rename_i hc
-        cases hrep : specRepeat (fun p v => spec t p none v) fpath es 0 with
-        | none => simp [hrep] at h
-        | some rr =>
-          obtain ⟨bb, ee⟩ := rr
-          simp only [hrep, Option.map_some, Option.some.injEq, Prod.mk.injEq] at h
-          obtain ⟨rfl, rfl⟩ := h
-          have := repeat_ok (fun p s => decode true t p none s) (fun p v => spec t p none v)
-            (fun p v bs evs h rest pos out scs hroom hfresh => decode_ok t p none v bs evs h rest pos out scs hroom hfresh)
-            fpath es 0 bb ee hrep rest pos (out ++ [(pos, .marshal ⟨fpath, .listOf t.name, none, ""⟩)]) scs hroom hfresh
-          subst hc
-          simp only [decodeField, hcount, emitM, emit, this, R.bind_ok, post]
-          simp [stamp_cons]
-      · simp at h
-    · simp at h
-
 theorem fields_ok : (fs : Fields) → ∀ (path : Path) (vals : List (String × Val))
     (fvs : List (String × Val)) (bs : List Byte) (evs : List SEv),
     specFields fs path vals fvs = some (bs, evs) → ∀ (rest : List Byte) (pos : Nat) (out : List (Nat × Event)) (scs : List SC),
@@ -552,7 +555,7 @@ theorem fields_ok : (fs : Fields) → ∀ (path : Path) (vals : List (String × 
       split at h
       · rename_i hfn
         subst hfn
-        cases hf : specField kind t (path ++ [⟨fn, none⟩]) vals v with
+        cases hf : specFieldWith (fun p sel v => spec t p sel v) t.name kind (path ++ [⟨fn, none⟩]) vals v with
         | none => simp [hf] at h
         | some r1 =>
           obtain ⟨b1, e1⟩ := r1
@@ -564,7 +567,9 @@ theorem fields_ok : (fs : Fields) → ∀ (path : Path) (vals : List (String × 
             obtain ⟨rfl, rfl⟩ := h
             have hroom1 : Room scs b1.length := room_mono hroom (by simp)
             have hroom2 : Room (bump scs b1.length) b2.length := room_bump (by simpa using hroom)
-            have h1 := field_ok kind t _ vals v b1 e1 hf (b2 ++ rest) pos out scs hroom1 hfresh
+            have h1 := fieldWith_ok (fun p sel s => decode true t p sel s) (fun p sel v => spec t p sel v)
+              (fun p sel v bs evs h rest pos out scs hr hf => decode_ok t p sel v bs evs h rest pos out scs hr hf)
+              t.name kind _ vals v b1 e1 hf (b2 ++ rest) pos out scs hroom1 hfresh
             simp only [decodeFields, List.append_assoc, h1, post, R.bind_ok]
             have := fields_ok fs path (vals ++ [(fn, v)]) fvs b2 e2 hrest rest (pos + b1.length)
               (out ++ stamp pos e1) (bump scs b1.length) hroom2 (fresh_bump hfresh)
